@@ -46,6 +46,7 @@ DOMAIN_DERIVED_OK = {
     ("format::manifest::Manifest", "local_schema"): "derived from schema",
     ("format::manifest::Manifest", "index_section"): "file offset set by the reader/writer, not part of the message body",
     ("format::manifest::Manifest", "transaction_section"): "file offset set by the reader/writer",
+    ("lance_core::datatypes::Dictionary", "values"): "dictionary values live out of line at (offset, length) and are loaded by load_field_dictionary (used by C43)",
 }
 
 
